@@ -256,6 +256,63 @@ def twWrites : TW → List Bytes → TW × List Bytes
     let (t2, w2) := twWrites t1 ps
     (t2, w1 ++ w2)
 
+/-- `WriteMessage(typ, data)` of a data message with compression: `flate.Writer` → `truncWriter` →
+message writer; `deflChunks` are the `Write` calls flate makes (its output for `data` followed by a
+sync flush, in whatever pieces).  `flateWriteWrapper.Close` checks the four bytes kept back before
+it closes the message writer. -/
+def writeCompressed (cfg : WCfg) (c : WConn) (typ : Nat) (deflChunks : List Bytes) : WConn × Option WErr :=
+  match beginMessage c typ with
+  | some e => (c, some e)
+  | none =>
+    let (t, outs) := twWrites {} deflChunks
+    match mwWrites cfg c { frameType := typ, compress := true } outs with
+    | (c, _, some e) => (c, some e)
+    | (c, w, none) =>
+      if t.held != deflateTail then (c, some .flateTail)
+      else
+        match mwClose cfg c w with
+        | (c, _, e) => (c, e)
+
+/-- `WritePreparedMessage` of an uncompressed prepared message: the frames were produced by a fake
+connection of the same side with the default 4096-byte buffer (mask keys continue the sequence) and
+are written with one `c.write`. -/
+def writePrepared (cfg : WCfg) (c : WConn) (typ : Nat) (data : Bytes) : WConn × Option WErr :=
+  let pcfg : WCfg := { cfg with bufSize := 4096, compress := false }
+  match writeMessagePlain pcfg { nkeys := c.nkeys } typ data with
+  | (pc, some e) => ({ c with nkeys := pc.nkeys }, some e)
+  | (pc, none) => connWrite { c with nkeys := pc.nkeys } typ pc.wire
+
+/-- one write operation on a data message -/
+inductive WOp where
+  | message (typ : Nat) (data : Bytes)                   -- WriteMessage, no compression
+  | streamed (typ : Nat) (pieces : List Bytes)           -- NextWriter, Write …, Close
+  | strings (typ : Nat) (pieces : List Bytes)            -- NextWriter, WriteString …, Close
+  | prepared (typ : Nat) (data : Bytes)                  -- WritePreparedMessage (uncompressed)
+  | compressed (typ : Nat) (data : Bytes) (deflChunks : List Bytes)  -- WriteMessage with compression
+
+def WOp.typ : WOp → Nat
+  | .message t _ => t | .streamed t _ => t | .strings t _ => t | .prepared t _ => t | .compressed t _ _ => t
+
+/-- the message bytes the application handed over -/
+def WOp.data : WOp → Bytes
+  | .message _ d => d | .streamed _ ps => ps.flatten | .strings _ ps => ps.flatten
+  | .prepared _ d => d | .compressed _ d _ => d
+
+def writeOp (cfg : WCfg) (c : WConn) : WOp → WConn × Option WErr
+  | .message t d => writeMessagePlain cfg c t d
+  | .streamed t ps => writeStreamed cfg c t false ps
+  | .strings t ps => writeStrings cfg c t ps
+  | .prepared t d => writePrepared cfg c t d
+  | .compressed t _ chunks => writeCompressed cfg c t chunks
+
+/-- a script of write operations: the connection afterwards and whether every write succeeded -/
+def writeAll (cfg : WCfg) : WConn → List WOp → WConn × Bool
+  | c, [] => (c, true)
+  | c, op :: ops =>
+    match writeOp cfg c op with
+    | (c, some _) => (c, false)
+    | (c, none) => writeAll cfg c ops
+
 /-- `maskBytes` of mask.go for a slice whose first byte sits `align` bytes past a word boundary
 (word size 8): bytes up to the boundary one at a time, whole words with the rotated key, the rest
 one at a time.  Returns the masked bytes and the new key position. -/
